@@ -84,7 +84,7 @@ package stream
 //@ params s
 //@ props C05
 //@ requires s != nil
-//@ ensures.cleared[C05] s.anyDirtyOffset == false && fresh(s.dirtyOffsets) && forall k uint16 :: !has(s.dirtyOffsets, k)
+//@ ensures.cleared[C05] s.anyDirtyOffset == false && fresh(s.dirtyOffsets) && len(s.dirtyOffsets) == 0 && forall k uint16 :: !has(s.dirtyOffsets, k)
 //@ modifies s.anyDirtyOffset, s.dirtyOffsets
 
 //@ func (*stream).GetObservers
@@ -141,7 +141,7 @@ package stream
 //@ iface stream.Stream.UnmarkDirtyOffsets
 //@ params recv
 //@ requires typeis(recv, "*stream")
-//@ ensures as(recv, "*stream").anyDirtyOffset == false && fresh(as(recv, "*stream").dirtyOffsets) && forall k uint16 :: !has(as(recv, "*stream").dirtyOffsets, k)
+//@ ensures as(recv, "*stream").anyDirtyOffset == false && fresh(as(recv, "*stream").dirtyOffsets) && len(as(recv, "*stream").dirtyOffsets) == 0 && forall k uint16 :: !has(as(recv, "*stream").dirtyOffsets, k)
 //@ modifies as(recv, "*stream").anyDirtyOffset, as(recv, "*stream").dirtyOffsets
 
 // Assumed contract of a metadata store: it does not write library state.
@@ -151,7 +151,7 @@ package stream
 
 //@ func (*checkpoint).Save
 //@ params s
-//@ props C01 C02 C05 C06 C13
+//@ props C01 C02 C05 C06 C13 C14
 //@ requires s != nil && s.stream != nil && typeis(s.stream, "*stream") && s.saveLock != nil && s.metric != nil && s.metadata != nil
 //@ requires as(s.stream, "*stream").offsets != nil && as(s.stream, "*stream").dirtyOffsets != nil
 //@ let st = as(s.stream, "*stream")
@@ -163,14 +163,22 @@ package stream
 //@ let saved = any && ret(metadata.Metadata.Save, 0) == nil
 // While the store call is in flight acknowledgements, absorbed events and system events may land
 // (any number of setOffset steps on any vBuckets): positions only move forward, dirty marks and
-// the dirty flag are only raised, the maps themselves stay the same objects.
-//@ rely metadata.Metadata.Save snap mid
+// the dirty flag are only raised, the maps themselves stay the same objects. `sent` is the state
+// when the store call is made (marks already lowered), `mid` the state when it returns.
+//@ rely metadata.Metadata.Save snap mid presnap sent
 //@   modifies content(st.offsets), content(st.dirtyOffsets), st.anyDirtyOffset, calls(models.Consumer.TrackOffset)
 //@   guarantee.monotone forall vb uint16 :: old(has(st.offsets, vb)) ==> has(st.offsets, vb) && st.offsets[vb] != nil && st.offsets[vb].SeqNo >= old(st.offsets[vb].SeqNo)
 //@   guarantee.marks forall vb uint16 :: old(has(st.dirtyOffsets, vb)) ==> has(st.dirtyOffsets, vb) && (old(st.dirtyOffsets[vb]) ==> st.dirtyOffsets[vb])
 //@   guarantee.flag old(st.anyDirtyOffset) ==> st.anyDirtyOffset
-//@   guarantee.moved forall vb uint16 :: has(st.offsets, vb) && old(has(st.offsets, vb)) && st.offsets[vb] != old(st.offsets[vb]) ==> st.offsets[vb].SeqNo != old(st.offsets[vb].SeqNo) || st.offsets[vb].SeqNo == old(st.offsets[vb].SeqNo)
 //@ loop $1
+//@   invariant.copy forall vb uint16 :: visited[vb] ==> has(dirtyOffsetsDump, vb) && dirtyOffsetsDump[vb] == dirtyOffsets[vb]
+//@   invariant.dom forall vb uint16 :: has(dirtyOffsetsDump, vb) ==> visited[vb]
+//@   modifies content(dirtyOffsetsDump)
+//@ loop 1
+//@   invariant.lowered forall vb uint16 :: has(dirtyOffsets, vb) == (old(has(st.dirtyOffsets, vb)) && !(visited[vb] && dirtyOffsetsDump[vb]))
+//@   invariant.vals forall vb uint16 :: has(dirtyOffsets, vb) ==> dirtyOffsets[vb] == old(st.dirtyOffsets[vb])
+//@   modifies content(dirtyOffsets)
+//@ loop $2
 //@   invariant.shape forall vb uint16 :: visited[vb] ==> has(checkpointDump, vb) && checkpointDump[vb] != nil && checkpointDump[vb].Checkpoint != nil && checkpointDump[vb].Checkpoint.Snapshot != nil
 //@   invariant.uuid forall vb uint16 :: visited[vb] ==> checkpointDump[vb].Checkpoint.VbUUID == offsets[vb].VbUUID
 //@   invariant.seqno forall vb uint16 :: visited[vb] ==> checkpointDump[vb].Checkpoint.SeqNo == offsets[vb].SeqNo
@@ -178,24 +186,24 @@ package stream
 //@   invariant.snapend forall vb uint16 :: visited[vb] ==> checkpointDump[vb].Checkpoint.Snapshot.EndSeqNo == offsets[vb].EndSeqNo
 //@   invariant.dom forall vb uint16 :: has(checkpointDump, vb) ==> visited[vb]
 //@   modifies content(checkpointDump), newobjs(models.CheckpointDocument), newobjs(models.CheckpointDocumentCheckpoint), newobjs(models.CheckpointDocumentSnapshot)
-//@ loop $2
-//@   invariant.copy forall vb uint16 :: visited[vb] ==> has(dirtyOffsetsDump, vb) && dirtyOffsetsDump[vb] == dirtyOffsets[vb]
-//@   invariant.dom forall vb uint16 :: has(dirtyOffsetsDump, vb) ==> visited[vb]
-//@   modifies content(dirtyOffsetsDump)
-//@ loop 1
-//@   invariant.kept forall vb uint16 :: has(dirtyOffsets, vb) == (at(mid, has(st.dirtyOffsets, vb)) && !(visited[vb] && has(dirtyOffsetsDump, vb) && dirtyOffsetsDump[vb] && has(offsets, vb) && offsets[vb].SeqNo == checkpointDump[vb].Checkpoint.SeqNo))
-//@   invariant.vals forall vb uint16 :: has(dirtyOffsets, vb) ==> dirtyOffsets[vb] == at(mid, st.dirtyOffsets[vb])
+//@ loop 2
+//@   invariant.restored forall vb uint16 :: has(dirtyOffsets, vb) == (at(mid, has(st.dirtyOffsets, vb)) || (visited[vb] && dirtyOffsetsDump[vb]))
+//@   invariant.vals forall vb uint16 :: has(dirtyOffsets, vb) ==> dirtyOffsets[vb] == ((visited[vb] && dirtyOffsetsDump[vb]) || at(mid, st.dirtyOffsets[vb]))
 //@   modifies content(dirtyOffsets)
-//@ ensures.skip[C05] !any ==> calls(metadata.Metadata.Save) == 0 && calls(stream.Stream.UnmarkDirtyOffsets) == 0 && st.dirtyOffsets == dirt && unchanged(st.dirtyOffsets) && st.anyDirtyOffset == any && unchanged(st.offsets)
+//@ ensures.skip[C05,C14] !any ==> calls(metadata.Metadata.Save) == 0 && calls(stream.Stream.UnmarkDirtyOffsets) == 0 && st.dirtyOffsets == dirt && unchanged(st.dirtyOffsets) && st.anyDirtyOffset == any && unchanged(st.offsets)
 //@ ensures.once[C05,C13] any ==> calls(metadata.Metadata.Save) == 1 && arg(metadata.Metadata.Save, 0, recv) == old(s.metadata) && arg(metadata.Metadata.Save, 0, bucketUUID) == s.bucketUUID
 //@ ensures.dumpdom[C01,C02] any ==> forall vb uint16 :: has(state, vb) == old(has(st.offsets, vb))
 //@ ensures.dump[C01,C02,C06] any ==> forall vb uint16 :: has(state, vb) ==> state[vb] != nil && state[vb].Checkpoint != nil && state[vb].Checkpoint.Snapshot != nil && state[vb].Checkpoint.VbUUID == old(st.offsets[vb].VbUUID) && state[vb].Checkpoint.SeqNo == old(st.offsets[vb].SeqNo) && state[vb].Checkpoint.Snapshot.StartSeqNo == old(st.offsets[vb].StartSeqNo) && state[vb].Checkpoint.Snapshot.EndSeqNo == old(st.offsets[vb].EndSeqNo)
 //@ ensures.dirtydump[C05,C13] any ==> forall vb uint16 :: has(dump, vb) == old(has(st.dirtyOffsets, vb)) && (has(dump, vb) ==> dump[vb] == old(st.dirtyOffsets[vb]))
-//@ ensures.interference[C05] any ==> (forall vb uint16 :: old(has(st.offsets, vb)) ==> at(mid, has(st.offsets, vb) && st.offsets[vb].SeqNo >= old(st.offsets[vb].SeqNo))) && (forall vb uint16 :: old(has(st.dirtyOffsets, vb) && st.dirtyOffsets[vb]) ==> at(mid, has(st.dirtyOffsets, vb) && st.dirtyOffsets[vb])) && at(mid, st.anyDirtyOffset)
-//@ ensures.forget_only_stored[C05,C13] saved ==> forall vb uint16 :: at(mid, has(st.dirtyOffsets, vb) && st.dirtyOffsets[vb]) && !(old(has(st.dirtyOffsets, vb) && st.dirtyOffsets[vb] && has(st.offsets, vb)) && at(mid, st.offsets[vb].SeqNo) == old(st.offsets[vb].SeqNo)) ==> has(st.dirtyOffsets, vb) && st.dirtyOffsets[vb] && st.anyDirtyOffset
-//@ ensures.forget_stored[C05] saved ==> forall vb uint16 :: old(has(st.dirtyOffsets, vb) && st.dirtyOffsets[vb] && has(st.offsets, vb)) && at(mid, st.offsets[vb].SeqNo) == old(st.offsets[vb].SeqNo) ==> !has(st.dirtyOffsets, vb)
+//@ ensures.marks_lowered_before_the_store_call[C05,C14] any ==> forall vb uint16 :: at(sent, has(st.dirtyOffsets, vb)) == (old(has(st.dirtyOffsets, vb)) && !old(st.dirtyOffsets[vb])) && at(sent, st.anyDirtyOffset)
+//@ ensures.every_mark_lowered[C14] any && (forall vb uint16 :: old(has(st.dirtyOffsets, vb)) ==> old(st.dirtyOffsets[vb])) ==> at(sent, len(st.dirtyOffsets)) == 0
+//@ ensures.interference[C05] any ==> (forall vb uint16 :: old(has(st.offsets, vb)) ==> at(mid, has(st.offsets, vb) && st.offsets[vb].SeqNo >= old(st.offsets[vb].SeqNo))) && (forall vb uint16 :: at(sent, has(st.dirtyOffsets, vb)) ==> at(mid, has(st.dirtyOffsets, vb)) && (at(sent, st.dirtyOffsets[vb]) ==> at(mid, st.dirtyOffsets[vb]))) && at(mid, st.anyDirtyOffset)
+//@ ensures.marks_raised_during_the_store_call_survive[C05,C13] saved ==> forall vb uint16 :: at(mid, has(st.dirtyOffsets, vb) && st.dirtyOffsets[vb]) ==> has(st.dirtyOffsets, vb) && st.dirtyOffsets[vb] && st.anyDirtyOffset
+//@ ensures.a_save_raises_no_mark_itself[C14,C05] saved ==> forall vb uint16 :: has(st.dirtyOffsets, vb) ==> at(mid, has(st.dirtyOffsets, vb)) && st.dirtyOffsets[vb] == at(mid, st.dirtyOffsets[vb])
+//@ ensures.clean_after_a_quiet_store_call[C14] saved && at(mid, len(st.dirtyOffsets)) == 0 ==> !st.anyDirtyOffset && len(st.dirtyOffsets) == 0
 //@ ensures.flag_down_only_when_clean[C05] saved && !st.anyDirtyOffset ==> forall vb uint16 :: !has(st.dirtyOffsets, vb)
-//@ ensures.fail[C05] any && ret(metadata.Metadata.Save, 0) != nil ==> calls(stream.Stream.UnmarkDirtyOffsets) == 0 && st.dirtyOffsets == dirt && st.anyDirtyOffset == at(mid, st.anyDirtyOffset) && forall vb uint16 :: has(st.dirtyOffsets, vb) == at(mid, has(st.dirtyOffsets, vb)) && st.dirtyOffsets[vb] == at(mid, st.dirtyOffsets[vb])
+//@ ensures.fail[C05] any && ret(metadata.Metadata.Save, 0) != nil ==> calls(stream.Stream.UnmarkDirtyOffsets) == 0 && st.dirtyOffsets == dirt && st.anyDirtyOffset == at(mid, st.anyDirtyOffset) && forall vb uint16 :: has(st.dirtyOffsets, vb) == (at(mid, has(st.dirtyOffsets, vb)) || old(has(st.dirtyOffsets, vb) && st.dirtyOffsets[vb])) && (has(st.dirtyOffsets, vb) ==> st.dirtyOffsets[vb] == (old(has(st.dirtyOffsets, vb) && st.dirtyOffsets[vb]) || at(mid, st.dirtyOffsets[vb])))
+//@ ensures.marks_map_stays_usable[C05] st.dirtyOffsets != nil
 //@ ensures.positions[C01] st.offsets == offs && forall vb uint16 :: old(has(st.offsets, vb)) ==> has(st.offsets, vb) && st.offsets[vb].SeqNo >= old(st.offsets[vb].SeqNo)
 //@ modifies st.anyDirtyOffset, st.dirtyOffsets, content(st.dirtyOffsets), content(st.offsets), s.metric.OffsetWrite, s.metric.OffsetWriteLatency, calls(metadata.Metadata.Save), calls(stream.Stream.UnmarkDirtyOffsets), calls(stream.Stream.GetOffsets), calls(models.Consumer.TrackOffset), calls("wrapper.(*ConcurrentSwissMap).Range")
 
